@@ -21,7 +21,9 @@ MAIN_CORR = ['no_quantity', 'no_units', 'quantity_nonstr', 'units_nonstr', 'main
              # both ancillaries of one side resized TOGETHER: consistent with each other, not with the Main dataset
              'side_more_pos', 'side_more_spec', 'side_less_pos', 'side_less_spec',
              # both ancillaries of a side list consistently too FEW labels and units
-             'both_labels_short_pos', 'both_labels_short_spec']
+             'both_labels_short_pos', 'both_labels_short_spec',
+             # both ancillaries of a side list the SAME wrong number of units (one more / one fewer than labels)
+             'both_units_more_pos', 'both_units_more_spec', 'both_units_less_pos', 'both_units_less_spec']
 ALL_CORR = MAIN_CORR + ['%s:%s' % (l, c) for l in LINKS for c in LINK_CORR]
 RULE = RULE % len(ALL_CORR)
 
@@ -123,6 +125,19 @@ def _corrupt(grp, h5_main, corr):
             d = grp[base + suffix]
             d.attrs['labels'] = np.array(_bl(d.attrs['labels'])[:-1], dtype='S')
             d.attrs['units'] = np.array(_bl(d.attrs['units'])[:-1], dtype='S')
+    elif corr.startswith('both_units_more') or corr.startswith('both_units_less'):
+        base = 'Position' if corr.endswith('pos') else 'Spectroscopic'
+        for suffix in ('_Indices', '_Values'):
+            if base + suffix not in grp or not isinstance(grp[base + suffix], h5py.Dataset) or \
+                    'units' not in grp[base + suffix].attrs:
+                return
+        for suffix in ('_Indices', '_Values'):
+            d = grp[base + suffix]
+            u_ = _bl(d.attrs['units'])
+            if corr.startswith('both_units_more') or len(u_) < 2:
+                d.attrs['units'] = np.array(u_ + [b'zz'], dtype='S')
+            else:
+                d.attrs['units'] = np.array(u_[:-1], dtype='S')
     elif corr.startswith('both_labels_len'):
         base = 'Position' if corr.endswith('pos') else 'Spectroscopic'
         for suffix in ('_Indices', '_Values'):
